@@ -756,6 +756,26 @@ fn emit_update(out: &mut Out, runner: &mut Runner, c: &UpdCase, compression: Til
 					out.count("upd_target_layer_present");
 				}
 			}
+			// every layer whose name is not EXACTLY the selected one must come out byte for byte as plain
+			// re-encoding writes it (near misses of the name included)
+			if let (Ok(Ok(plain)), Some(out_fields), Some(t_in)) = (real_roundtrip(&c.tile), fields(b), decode_tile(&c.tile)) {
+				if let Some(plain_fields) = fields(&plain) {
+					let blobs = |f: &Vec<(u32, Wire)>| -> Vec<Vec<u8>> { f.iter().filter_map(|(_, w)| if let Wire::Len(s) = w { Some(s.to_vec()) } else { None }).collect() };
+					let (ob, pb) = (blobs(&out_fields), blobs(&plain_fields));
+					if ob.len() == pb.len() && pb.len() == t_in.layers.len() {
+						let bad = t_in.layers.iter().enumerate().find(|(i, l)| l.name != c.layer && ob[*i] != pb[*i]);
+						if t_in.layers.iter().any(|l| l.name != c.layer && l.name.eq_ignore_ascii_case(&c.layer)) {
+							out.count("upd_case_variant_sibling");
+						}
+						out.oracle(
+							bad.is_none(),
+							&format!("C11 update: layer '{}' is not the selected layer '{}' but its bytes changed", bad.map_or(String::new(), |(_, l)| String::from_utf8_lossy(&l.name).to_string()), String::from_utf8_lossy(&c.layer)),
+							json!({"kind": "other_layer_bytes", "flags": flags}),
+							json!({"case": line}),
+						);
+					}
+				}
+			}
 			out.oracle(
 				kind == "none",
 				&format!("C11 update ({kind}): want {} got {}", trunc(&dump_layers(&want), 300), trunc(&dump_bytes(b, false), 300)),
@@ -932,8 +952,8 @@ fn emit_paths(out: &mut Out, runner: &mut Runner, c: &UpdCase, rng: &mut Rng) {
 
 // ------------------------------------------------------------------ generators
 
-const NAMES: &[&str] = &["roads", "water", "pois", "Straße", "l"];
-const KEYS: &[&str] = &["id", "name", "kind", "pop", "höhe", "x"];
+const NAMES: &[&str] = &["roads", "water", "pois", "Straße", "l", "Roads", "ROADS", "roads ", " roads", "roads2", "road", "ro\u{430}ds", "", "Water", "STRASSE", "caf\u{e9}", "cafe\u{301}", "L"];
+const KEYS: &[&str] = &["id", "name", "kind", "pop", "höhe", "x", "ID", "Id", "id ", " id", "id2", "i", "\u{131}d", "Name", "name ", "\u{212a}ind", "", "key"];
 const ID_TEXTS: &[&str] = &["a1", "b2", "1", "12", "-3", "true", "1.5", "01", "1.0", "12 ", " 12", "012", "12.0", "+1", "-03", "TRUE", "1.50", "zz", "0.5", "1.50", "18446744073709551615", "v1"];
 const DATA_TEXTS: &[&str] = &["", "x", "Berlin", "12", "-7", "3.25", "true", "false", "a,b", "q\"q", "日本", "007", "-0", ".5", "1e5", "v2", " 1", "99999999999999999999", "-9223372036854775808", "-9223372036854775809", "18446744073709551616"];
 
@@ -961,7 +981,7 @@ fn gen_opts(messy: bool, nan: bool) -> GenOpts {
 			IValue::Float(12.0f32.to_le_bytes()),
 			IValue::SInt(1),
 		],
-		max_layers: 4,
+		max_layers: 5,
 		max_features: 6,
 		messy_tables: messy,
 		nan,
@@ -1017,11 +1037,33 @@ fn boundary_cases() -> (Vec<Vec<u8>>, Vec<UpdCase>) {
 fn gen_update_case(rng: &mut Rng, messy: bool) -> UpdCase {
 	let o = gen_opts(messy, rng.chance(1, 3));
 	let unique = rng.chance(9, 10);
-	let tile = gen_tile(rng, &o, unique);
+	let mut tile = gen_tile(rng, &o, unique);
 	let style = gen_style(rng);
 	let layer = if !tile.layers.is_empty() && rng.chance(9, 10) { rng.pick(&tile.layers).name.clone() } else { b"roads".to_vec() };
-	// the VPL text cannot carry every string (C18's subject): keep the three names plain ASCII
-	let layer = if layer.is_ascii() { layer } else { b"roads".to_vec() };
+	// the VPL text cannot carry every string (C18's subject): keep the three names plain ASCII words
+	let layer = if !layer.is_empty() && layer.iter().all(|c| c.is_ascii_alphanumeric()) { layer } else { b"roads".to_vec() };
+	// near misses of the selected name as siblings: other case, blanks, prefix / suffix, look-alike, the same name again
+	if rng.chance(1, 2) {
+		let l = String::from_utf8(layer.clone()).unwrap();
+		let miss = match rng.below(9) {
+			0 => l.to_ascii_uppercase(),
+			1 => l.to_ascii_lowercase(),
+			2 => {
+				let mut c = l.chars();
+				let f = c.next().unwrap();
+				format!("{}{}", if f.is_ascii_uppercase() { f.to_ascii_lowercase() } else { f.to_ascii_uppercase() }, c.as_str())
+			}
+			3 => format!("{l} "),
+			4 => format!(" {l}"),
+			5 => format!("{l}2"),
+			6 => l[..l.len() - 1].to_string(),
+			7 => l.replace('a', "\u{430}").replace('o', "\u{43e}"),
+			_ => l.clone(), // a second layer with exactly the selected name: both are processed
+		};
+		let extra = gen_layer(rng, &o, miss.into_bytes());
+		let at = rng.below(tile.layers.len() as u64 + 1) as usize;
+		tile.layers.insert(at, extra);
+	}
 	let id_tiles = if rng.chance(9, 10) { b"id".to_vec() } else { b"name".to_vec() };
 	let id_data = if rng.chance(1, 2) { b"id".to_vec() } else { b"key".to_vec() };
 	let mut header: Vec<Vec<u8>> = vec![id_data.clone()];
@@ -1033,6 +1075,18 @@ fn gen_update_case(rng: &mut Rng, messy: bool) -> UpdCase {
 	if header.len() == 1 {
 		header.push(b"new".to_vec());
 	}
+	if rng.chance(1, 3) {
+		// a near miss of the id column next to it: only the exact name may be used for the join
+		let l = String::from_utf8(id_data.clone()).unwrap();
+		let miss = match rng.below(5) {
+			0 => l.to_ascii_uppercase(),
+			1 => format!("{l} "),
+			2 => format!("{l}2"),
+			3 => l[..l.len() - 1].to_string(),
+			_ => format!("K{}", &l[1..]),
+		};
+		header.push(miss.into_bytes());
+	}
 	if rng.chance(1, 40) {
 		header[0] = b"other".to_vec(); // id column missing
 	}
@@ -1040,7 +1094,7 @@ fn gen_update_case(rng: &mut Rng, messy: bool) -> UpdCase {
 	header.swap(0, idpos);
 	let mut rows = vec![];
 	for _ in 0..rng.below(9) {
-		let row: Vec<Cell> = (0..header.len()).map(|i| if i == idpos { cell_of(if rng.chance(5, 6) { *rng.pick(&ID_TEXTS[..14]) } else { *rng.pick(ID_TEXTS) }) } else { cell_of(*rng.pick(DATA_TEXTS)) }).collect();
+		let row: Vec<Cell> = (0..header.len()).map(|i| if i == idpos || (header[i] != header[idpos] && header[i].to_ascii_lowercase().starts_with(&header[idpos].to_ascii_lowercase()[..1]) && header[i].len() <= header[idpos].len() + 1 && header[i] != b"kind".to_vec()) { cell_of(if rng.chance(5, 6) { *rng.pick(&ID_TEXTS[..14]) } else { *rng.pick(ID_TEXTS) }) } else { cell_of(*rng.pick(DATA_TEXTS)) }).collect();
 		rows.push(row);
 	}
 	UpdCase { replace: rng.chance(1, 2), remove: rng.chance(1, 2), include_id: rng.chance(1, 2), layer, id_tiles, id_data, header, rows, tile: encode_tile(&tile, &style), csv_style: rng.below(16) as u8 }
